@@ -435,9 +435,9 @@ def djs_reject(data, model, outmask=None, inmask=None, sigma=None,
         rejects = newmask == 0
         if rejects.any():
             irejects = rejects.nonzero()[0]
-            for k in range(1, grow):
-                newmask[(irejects - k) > 0] = 0
-                newmask[(irejects + k) < (data.shape[0]-1)] = 0
+            for k in range(1, grow + 1):
+                newmask[np.maximum(irejects - k, 0)] = 0
+                newmask[np.minimum(irejects + k, data.shape[0]-1)] = 0
     if inmask is not None:
         newmask = newmask & inmask
     if sticky:
